@@ -454,8 +454,17 @@ def verify_unit(index: RepoIndex, contract: Contract, only=None) -> list[UnitRes
             res.status, res.detail = "out-of-subset", str(e)
         except ContractError as e:
             res.status, res.detail = "contract-error", str(e)
-        except Exception as e:        # engine fault
-            res.status, res.detail = "engine-error", f"{type(e).__name__}: {e}\n{traceback.format_exc()}"
+        except Exception as e:
+            tb = traceback.extract_tb(e.__traceback__)
+            in_contract = [fr for fr in tb if "/contracts/" in fr.filename.replace("\\", "/")]
+            if isinstance(e, (KeyError, AttributeError, IndexError, TypeError, AssertionError)) and in_contract:
+                # the sidecar contract's own code (a handler, a summary, an invariant) could not find what it describes in this version
+                # of the function (a renamed local, another call shape): the contract no longer binds - undecided, not a checker crash
+                fr = in_contract[-1]
+                res.status, res.detail = "contract-error", (f"contract does not bind: {type(e).__name__}: {e} in "
+                                                            f"{fr.filename.split('/contracts/')[-1]}:{fr.lineno} ({fr.name})")
+            else:        # engine fault
+                res.status, res.detail = "engine-error", f"{type(e).__name__}: {e}\n{traceback.format_exc()}"
         res.obligations = _dedupe(ctx.obligations)
         res.gen_time = time.time() - t0
         missing = [k for k in contract.loops if isinstance(k, int) and k not in ctx.loops_seen and k not in getattr(contract, 'loops_optional', ())]
